@@ -13,7 +13,7 @@ use proptest::prelude::*;
 pub fn def() -> PropDef {
     PropDef {
         id: "C05",
-        rule: "generated histories (1..12 ops) on one encoder or decoder of every family x engine: reset to other counts / shard size / rate, complete rounds (result read or dropped unread), abandoned partial rounds, failing adds, failing resets, premature encode/decode, into_parts -> new(Some(work)) into another family and engine; half of the histories with the poison hook armed (every byte of working memory that survives a resize is replaced by seeded noise). oracle: at every encode/decode the calls made since the last reset / dropped result are replayed on a freshly constructed object of the current configuration; every call result and the output bytes must be identical. part big_history: the same oracle on few, long shards (working spaces 1 MiB .. 128 MiB quick / 512 MiB thorough, log-uniform) with several rounds per object. non-trivial: >=2 completed rounds on the one object (the classes report how many of them had a configuration change, recycle, failed call or poison in between); distinct by full history",
+        rule: "generated histories (1..12 ops) on one encoder or decoder of every family x engine: reset to other counts / shard size / rate, complete rounds (result read or dropped unread), abandoned partial rounds, failing adds, failing resets, premature encode/decode, into_parts -> new(Some(work)) into another family and engine; half of the histories with the poison hook armed (every byte of working memory that survives a resize is replaced by seeded noise). oracle: at every encode/decode the calls made since the last reset / dropped result are replayed on a freshly constructed object of the current configuration; every call result and the output bytes must be identical. part big_history: the same oracle on few, long shards (working spaces 1 MiB .. 256 MiB quick / 2 GiB thorough, log-uniform) with several rounds per object. non-trivial: >=2 completed rounds on the one object (the classes report how many of them had a configuration change, recycle, failed call or poison in between); distinct by full history",
         assumptions: &[
             "an implementation does not carry knowledge about the *contents* of working memory across a resize (poison only overwrites the retained prefix, where real stale bytes live)",
             "shard contents are arbitrary bytes: the decoder is compared with a fresh decoder on the same inputs, consistency of the shards is not needed for this property",
@@ -37,10 +37,10 @@ fn parts() -> Vec<Box<dyn PartDyn>> {
     ]
 }
 
-/// few, long shards: working spaces from 1 MiB to 128 MiB (quick) / 512 MiB (thorough), log-uniform,
+/// few, long shards: working spaces from 1 MiB to 256 MiB (quick) / 2 GiB (thorough), log-uniform,
 /// several rounds on one object with and without resets in between (size-dependent fast paths)
 fn big_strategy(t: Tier) -> BoxedStrategy<History> {
-    let max_q = t.pick(4 * 27u8, 4 * 29u8);
+    let max_q = t.pick(4 * 28u8, 4 * 31u8);
     let cfg = move || {
         (1usize..=8, 1usize..=8, any::<bool>(), prop_oneof![1 => (4 * 20u8)..=(4 * 24u8), 3 => (4 * 24u8)..=max_q], 0usize..64).prop_map(|(bounded, other, flip, q, jitter)| {
             let bytes = 2f64.powf(q as f64 / 4.0) as usize;
